@@ -863,9 +863,8 @@ func (q *TransferQueue) handleTransferResult(
 			tools.VerifTrace("tq.result", oid, "drop")
 			if errors.IsUnprocessableEntityError(res.Error) {
 				q.unsupportedContentType = true
-			} else {
-				q.errorc <- res.Error
 			}
+			q.errorc <- res.Error
 			q.wait.Done()
 		}
 	} else {
